@@ -13,7 +13,9 @@ RULE = ("every name of length <= 4 (quick) / 5 (thorough) over {a, space, backsl
         "a second target, and every ordered pair of names of length <= 3, each in 7 layouts (one line, continuation per "
         "name, one rule per dependency, trailing whitespace, CRLF, duplicated dependency, CRLF continuations); parsed by "
         "the real DepfileParser: must be accepted with outs_/ins_ exactly the names, each dependency once. Rejection: "
-        "every small name without ':' and every dependency re-used as a target with dependencies")
+        "every small name without ':' and every dependency re-used as a target with dependencies. Names with one or more "
+        "backslashes directly before '#' are representable (the compilers add one backslash, the scanner removes one). Second "
+        "pass: the same enumeration over {a, space, backslash, c} for every other character c of , = + @ - _ ( ) [ ] { } ! & ' \" . / 0 Z")
 
 
 def main(argv):
@@ -32,9 +34,16 @@ def main(argv):
         sys.exit(1 if rc == 1 else (0 if rc == 0 else 2))
     maxlen, pairlen = (4, 3) if c.tier == "quick" else (5, 3)
     cmds = [[exe, "maxlen=%d" % maxlen, "pairlen=%d" % pairlen, "shard=%d" % i, "nshards=%d" % NCPU] for i in range(NCPU)]
+    # second pass: every other printable character that compilers write as it is and file names do contain, each with the
+    # letter, the space and the backslash (what escaping rules interact with)
+    others = ",=+@-_()[]{}!&'\"./0Z"
+    for ch in others:
+        alpha = ("a \\" + ch).encode("latin-1").hex()
+        cmds.append([exe, "alpha=" + alpha, "maxlen=%d" % maxlen, "pairlen=2", "shard=0", "nshards=1"])
     res = c.run_many(cmds)
     tot = {"cases": 0, "files": 0, "rejected_ok": 0}
     names = 0
+    extra_names = 0
     samples = []
     for (rc, val, err), cmd in zip(res, cmds):
         if rc != 0 or val is None:
@@ -42,7 +51,9 @@ def main(argv):
             continue
         for k in tot:
             tot[k] += val[k]
-        names = val["representable_names"]
+        names = max(names, val["representable_names"]) if "alpha=" not in " ".join(cmd) else names
+        if "alpha=" in " ".join(cmd):
+            extra_names += val["representable_names"]
         samples += val["samples"][:1]
         if val.get("backslash_dollar_failures"):
             f = [x for x in c.findings if x["id"] == "F16-C15"]
@@ -68,7 +79,7 @@ def main(argv):
     cov = {
         "states": names, "transitions": tot["files"], "traces_validated_against_impl": tot["files"],
         "evaluations": tot["files"], "distinct_nontrivial": tot["cases"],
-        "rule": RULE, "representable_names": names, "name_placements": tot["cases"], "depfiles_parsed": tot["files"],
+        "rule": RULE, "representable_names": names, "names_of_the_second_pass_over_other_characters": extra_names, "name_placements": tot["cases"], "depfiles_parsed": tot["files"],
         "rejections_confirmed": tot["rejected_ok"], "samples": samples[:4] or ["T.o: a\\ b\n"],
     }
     c.finish(cov, assumptions=["reference encoder = GCC/Clang Makefile quoting as implemented in src/ix/depfile.cc (Encode)",
